@@ -421,6 +421,7 @@ def run_case(ctx):
     ctx.nontrivial = bool(big and (reordered or dup))
     ctx.state = (cx['desc']['kind'], npatch, nclasses, tuple(sched))
     ctx.sim_time = float(step)
+    ctx.interleaving = [cx['desc']['kind'], len(cx['patches']), [t[1:] for t in ctx.trace if isinstance(t, list) and t and t[0] == 'deliver']]
 
     e = ch.stream('end')
     # ---- geometric oracle: with all interfaces delivered, dofs are glued iff Greville points coincide
